@@ -22,7 +22,7 @@ PROPS = ("C15", "C17", "C18")
 FAM = {
     "C18": dict(fam="kademlia", trace="Trace_Kademlia", n=dict(quick=1500, thorough=40000),
                 stateful=("Set", "Knn")),
-    "C17": dict(fam="bep42", trace="Trace_Bep42", n=dict(quick=300, thorough=17000), stateful=()),
+    "C17": dict(fam="bep42", trace="Trace_Bep42", n=dict(quick=300, thorough=26000), stateful=()),
     "C15": dict(fam="codec", trace="Trace_KrpcCodec", n=dict(quick=1200, thorough=20000), stateful=()),
 }
 
@@ -433,6 +433,12 @@ def run(prop, tier, seed, replay=None):
     cov = dict(mc_runs=[], samples=[], traces_validated_against_impl=0, states=0, transitions=0)
     # VERIF_RECS_FAST=1: machinery self-tests (mutants) skip the model runs and the vacuity guard
     fast = os.environ.get("VERIF_RECS_FAST") == "1"
+    if os.path.realpath(vlib.REPO) != "/repo":
+        # machinery self-test against a scratch copy of the repository (VERIF_REPO): what it finds is about the
+        # mutant, so neither evidence/ nor evidence/replays/ of the framework are touched
+        vlib.EVID = vlib.scratch("verif-selftest-evidence-")
+        vlib.REPLAYS = os.path.join(vlib.EVID, "replays")
+        log("  self-test against %s: evidence and replays go to %s (removed at exit)" % (vlib.REPO, vlib.EVID))
     if not replay and not fast:
         stage1(prop, tier, v, cov)
     binary = vlib.go_build("recs")
